@@ -1,7 +1,7 @@
 SPECIFICATION Spec
 CONSTANTS
   MaxLen = 4
-  Deviations = {"public-keeps-wif-cache", "signature-keeps-secret", "tx-save-pickles-private-keys", "sign-stores-private-key-in-input", "walletkey-repr-prints-private-wif"}
+  Deviations = {"public-keeps-wif-cache", "signature-keeps-secret", "tx-save-pickles-private-keys", "sign-stores-private-key-in-input", "bare-public-path-returns-receiver", "walletkey-repr-prints-private-wif"}
 INVARIANT TypeOK
 INVARIANT PrivateViewsListed
 INVARIANT WifNeedsCachingCall
